@@ -178,6 +178,7 @@ Single ==
 
 Gain ==
     LET e == Ev IN
+    IF e.dead = 1 THEN TRUE ELSE      \* a window without energy (np.hanning(2)): the bin carries no information, every estimate is 0
     /\ Check("C07:gain_recovered", Near(e.hg[1], Q, 8) /\ Near(e.hg[2], 0, 8))     \* H/g = 1
     /\ Check("C07:unit_coherence_for_proportional_channels", Near(e.coh, Q, 8))
     /\ Check("C09:unit_coherence_for_linearly_dependent_channels", Near(e.coh, Q, 8))
@@ -191,6 +192,8 @@ Delay ==
     IN IF e.L < 32 * e.d THEN TRUE ELSE
        /\ Check("C07:delay_magnitude_near_one", mag2 >= 589824 /\ mag2 <= 1638400)         \* 0.75^2 .. 1.25^2
        /\ Check("C07:lagging_output_has_negative_phase", dot > 0 /\ 4 * Abs(crs) <= dot + 8)   \* |tan(err)| <= 1/4 (0.245 rad)
+       \* single-bin requests over > 3000 segments (scatter < 0.0035 rad): the phase at the REPORTED frequency, |tan(err)| <= 1/64
+       /\ Check("C07:single_bin_delay_phase_is_minus_2pi_f_d_over_fs", e.tight = 0 \/ (dot > 0 /\ 64 * Abs(crs) <= dot + 64))
 
 Step ==
     /\ l <= Len(T.ev)
